@@ -100,7 +100,13 @@ func (e *Engine) callEffect(cc *ssa.CallCommon) effect {
 	if strings.HasPrefix(key, "(*sync.Mutex)") || strings.HasPrefix(key, "(*sync.RWMutex)") {
 		return effect{kind: "keys", keys: []string{"L:w", "L:r"}}
 	}
-	if fc, ok := e.cs.Funcs[key]; ok {
+	fcg, okg := e.cs.Funcs[key]
+	if !okg {
+		if g := stripTypeArgs(key); g != key {
+			fcg, okg = e.cs.Funcs[g]
+		}
+	}
+	if fc, ok := fcg, okg; ok {
 		if !fc.HasMod && fc.Kind == "func" {
 			return effect{kind: "all"}
 		}
@@ -305,8 +311,13 @@ func (vf *VerifyFunc) doCall(st *State, fr *Frame, in ssa.Instruction, cc *ssa.C
 	if cc.IsInvoke() && vf.nopanic {
 		st.check("nopanic", "nil-iface-call@"+st.pos(in), "C14", "method call on nil interface", st.pos(in), not(eq(args[0].Tm, "iface_nil")))
 	}
-	// contract
+	// contract (generic instantiations share the contract of the generic function)
 	fc := eng.cs.Funcs[key]
+	if fc == nil {
+		if g := stripTypeArgs(key); g != key {
+			fc = eng.cs.Funcs[g]
+		}
+	}
 	if fc != nil {
 		old := st.snapshot()
 		res := vf.applyContract(st, fr, in, fc, cc, args, fnv, label)
@@ -870,4 +881,26 @@ func splitLbl(l string, c *Clause, i int) string {
 		return fmt.Sprintf("%s[%s=%d]", l, sp.Var, sp.Lo+i)
 	}
 	return l
+}
+
+// stripTypeArgs removes generic instantiation brackets: pkg.F[T] -> pkg.F, (*pkg.G[T]).M -> (*pkg.G).M
+func stripTypeArgs(k string) string {
+	var b strings.Builder
+	depth := 0
+	for i := 0; i < len(k); i++ {
+		c := k[i]
+		if c == '[' {
+			// "[]" (slice types) only occurs inside type arguments; outermost '[' after an identifier starts type args
+			depth++
+			continue
+		}
+		if c == ']' {
+			depth--
+			continue
+		}
+		if depth == 0 {
+			b.WriteByte(c)
+		}
+	}
+	return b.String()
 }
